@@ -76,6 +76,10 @@ def gen_history(rng: random.Random) -> dict:
         else:
             ops.append({'op': 'mutate', 'storage': storage, 'how': rng.choice(['insert', 'delete', 'update', 'insert', 'update', 'drop', 'restore']),
                         'arg': rng.randint(0, 99)})
+    for op in ops:  # nested set operands only where the engine takes them
+        for read in ([op] if op['op'] == 'read' else [op['a'], op['b']] if op['op'] == 'read2' else []):
+            if read['sid'] == 'setnest' and STORAGES[read['storage']].startswith(feeds.NESTED_SETS_UNSUPPORTED):
+                read['sid'] = 'diff'
     return {'contents': contents, 'ops': ops}
 
 
